@@ -201,13 +201,18 @@ def gen(rng, tier, index):
                 ' on ' not in text and ' off ' not in text:
             timing['d'] = min(timing['d'], 0.02)   # busy loop: keep it short
     rerun = rng.choice([None, 'same', 'other'])
+    pre_stop = None
+    if followers and rng.random() < 0.2:
+        # an earlier stop aimed at a job that is still waiting in the queue
+        pre_stop = rng.randrange(len(followers))
+        rerun = rng.choice(['follower', 'follower', rerun])
     pol = policy.draw_policy(rng, est_len=600, stalls=True)
     if timing['mode'] == 'target' and pol['gran'] == 'opcode':
         pol['gran'] = 'line'
     return {'policy': pol, 'population': pop, 'tick': tick, 'shape': shape,
             'start': [hour, minute, second], 'main': text,
             'followers': followers, 'how': how, 'timing': timing,
-            'rerun': rerun, 'bg': bg,
+            'rerun': rerun, 'bg': bg, 'pre_stop': pre_stop,
             'other': _follower_text(rng, pop, 5)}
 
 
@@ -463,6 +468,15 @@ def execute(scenario, chooser):
         def requester():
             if timing['mode'] == 'delay':
                 sim.sleep(timing['d'])
+            if sc.get('pre_stop') is not None:
+                try:
+                    wa.stop_script('f{}'.format(sc['pre_stop']))
+                except core.SimAbort:
+                    raise
+                except Exception as ex:
+                    st['stop_exc'] = 'pre-stop {}: {}'.format(
+                        type(ex).__name__, ex)
+                st['pre_stop_ev'] = sim.next_event()
             do_stop()
 
         if timing['mode'] == 'target':
@@ -519,6 +533,10 @@ def execute(scenario, chooser):
         if st['drained'] and sc['rerun']:
             if sc['rerun'] == 'same' and _finite_and_quick(sc):
                 fj = main_job
+            elif sc['rerun'] == 'follower' and sc['followers']:
+                k = sc.get('pre_stop') or 0
+                fj = RecJob('f{}'.format(k))
+                fj.load_string(sc['followers'][k])
             else:
                 fj = RecJob('other')
                 fj.load_string(sc['other'])
@@ -774,7 +792,8 @@ def _judge(sc, st, hist, sim, cap, violation, probes, res):
         return
     for i, text in enumerate(sc['followers']):
         jname = 'f{}'.format(i)
-        started = _events(hist, 'exec_start', jname)
+        started = [h for h in _events(hist, 'exec_start', jname)
+                   if st.get('rerun_mark') is None or h[2] < st['rerun_mark']]
         if how == 'stop_all':
             if jname in st['queue_at_S']:
                 violation('stop-all/queue-not-empty',
@@ -783,7 +802,8 @@ def _judge(sc, st, hist, sim, cap, violation, probes, res):
             if started and started[0][2] > S:
                 # popped before the clear but started after the call returned
                 got = [w for w in wire if _owner(w[3], w[4]) == jname
-                       and w[0] > S]
+                       and w[0] > S and (st.get('rerun_mark') is None or
+                                         w[0] < st['rerun_mark'])]
                 if got:
                     violation(KNOWN_PRE_ARM
                               if _preceded_arming(st, hist, sim, jname)
@@ -795,13 +815,16 @@ def _judge(sc, st, hist, sim, cap, violation, probes, res):
             continue
         if jname in victims:
             continue
+        if sc.get('pre_stop') == i:
+            continue        # a stop was aimed at it while it waited: unjudged
         if not started:
             violation('follower-never-started',
                       'job {} queued behind the stopped job never started'
                       .format(jname))
             continue
-        _compare_complete(sc, jname, text, wire, None, violation, probes,
-                          'follower')
+        _compare_complete(sc, jname, text, wire,
+                          (st['mark'], st.get('rerun_mark')), violation,
+                          probes, 'follower')
 
     # ---- a job the stop was not aimed at runs to completion ---------------
     if 'main' not in victims and sc['shape'] != 'infinite' and main_end:
@@ -815,8 +838,13 @@ def _judge(sc, st, hist, sim, cap, violation, probes, res):
             violation('rerun-stuck', 'follow-up job {} did not finish'.format(
                 st['rerun_job']))
         else:
-            text = sc['main'] if st['rerun_job'] == 'main' else sc['other']
-            name = 'main' if st['rerun_job'] == 'main' else 'f5'
+            if st['rerun_job'] == 'main':
+                text, name = sc['main'], 'main'
+            elif st['rerun_job'] == 'other':
+                text, name = sc['other'], 'f5'
+            else:
+                name = st['rerun_job']
+                text = sc['followers'][int(name[1:])]
             _compare_complete(sc, name, text, wire,
                               (st['rerun_mark'], None), violation, probes,
                               'rerun')
